@@ -63,6 +63,13 @@ func StdCER(hbh, e2e uint32, authApp uint32) []byte {
 	return Msg(0x80, CodeCE, 0, hbh, e2e, avps...)
 }
 
+// CERWith is a CER whose application / security AVPs are the given ones.
+func CERWith(hbh, e2e uint32, apps ...*refcodec.Node) []byte {
+	avps := append(Identity("peer.example", "example"), Addr4(HostIP, 10, 9, 8, 7), U32(VendorID, 99), Str(ProductName, refcodec.UTF8String, "peer"))
+	avps[4].Flags = 0
+	return Msg(0x80, CodeCE, 0, hbh, e2e, append(avps, apps...)...)
+}
+
 // StdCEA is a CEA with the given result code advertising the auth application.
 func StdCEA(hbh, e2e uint32, rc uint32, authApps ...uint32) []byte {
 	avps := []*refcodec.Node{U32(ResultCode, rc)}
